@@ -113,7 +113,7 @@ func cmdCli(args []string) int {
 			}
 			stdout := so.String()
 			isCanary := false
-			if *canary > 0 && sum.Cases%*canary == 0 && code == 0 {
+			if *canary > 0 && sum.Cases%*canary == 0 && code == 0 && r.Expect == "ok" && !strings.Contains(mustJSON(r.Allowed), "unspec") && !strings.Contains(mustJSON(r.Allowed), "jsontext") {
 				stdout = "\"☃canary\"\n"
 				isCanary = true
 				sum.CanariesIn++
